@@ -58,9 +58,26 @@ Definition judge_inst (c : icase) : verdict :=
      v_class := 0;
      v_spec := i_ok c && fresh_twice_ok (i_c c) (i_cfg c) (i_ids1 c) (i_ids2 c) && i_cfg_same c |}.
 
-Inductive case := HeapCase (c : hcase) | InstCase (c : icase).
+(* ---- entry points of which only the try/finally skeleton is modelled (Model.C08Heap.aux_run) *)
+Record acase := {
+  a_entry : N;
+  a_fails : bool;             (* the input was built to make the call fail midway *)
+  a_ok : bool;                (* the call returned *)
+  a_globals : list bool;      (* per global: unchanged? *)
+  a_args_same : bool }.       (* argv list / environ dict unchanged *)
+
+Definition judge_aux (c : acase) : verdict :=
+  let r := aux_run (a_entry c) (a_fails c) (mkst [] g0) in
+  let s := out_st r in
+  let m_ok := match r with Ok _ _ => true | Err _ _ => false end in
+  let m_glob := map (fun x => N.eqb (s_g s x) 0) (seq 0 NGLOBALS) in
+  {| v_model := Bool.eqb m_ok (a_ok c) && list_eqb Bool.eqb m_glob (a_globals c) && a_args_same c;
+     v_class := 0;
+     v_spec := forallb (fun b => b) (a_globals c) && a_args_same c |}.
+
+Inductive case := HeapCase (c : hcase) | InstCase (c : icase) | AuxCase (c : acase).
 Definition judge1_gen (fx : bool) (c : case) : verdict :=
-  match c with HeapCase h => judge_heap fx h | InstCase i => judge_inst i end.
+  match c with HeapCase h => judge_heap fx h | InstCase i => judge_inst i | AuxCase a => judge_aux a end.
 
 Definition judge1 : case -> verdict := judge1_gen false.
 Definition judge (cs : list case) := judge_all judge1 cs.
